@@ -310,13 +310,13 @@ func decodeOutcome(w *e.World, pr *Prog, res e.TxResult) progOutcome {
 
 // frameFacts walks a trace and collects what the oracles need.
 type frameFacts struct {
-	committedPC       []string // "staking.delegate@fic:1" committed state-changing precompile calls
-	inFailedFrame     []string // precompile calls inside a frame that failed, and precompile calls that failed themselves
-	enclosedInFailed  int      // precompile calls inside an enclosing frame that failed
-	innerFailed       int
-	failedNoPC        int
-	callers           map[string]bool // contracts that made a committed state-changing precompile call
-	committedPCalls   []committedCall
+	committedPC      []string // "staking.delegate@fic:1" committed state-changing precompile calls
+	inFailedFrame    []string // precompile calls inside a frame that failed, and precompile calls that failed themselves
+	enclosedInFailed int      // precompile calls inside an enclosing frame that failed
+	innerFailed      int
+	failedNoPC       int
+	callers          map[string]bool // contracts that made a committed state-changing precompile call
+	committedPCalls  []committedCall
 }
 
 type committedCall struct {
@@ -501,6 +501,42 @@ func (p *evmprof) c05Differential(w *e.World, signer *e.Account, pr *Prog) *e.Vi
 			w.Stats.Probe("precompile_call_failed_itself")
 		}
 	}
+	if kind == "failed-frame-contains-precompile-call" && len(diff) == 1 && diff[0] == "evm" && !topFailed {
+		// The open finding C05-001 covers contract storage only for a contract that
+		// has no surviving change of its own in the transaction (its flushed slots are
+		// then never written back). A contract that IS dirty at the end gets every
+		// slot restored, even across a flush (the StateDB remembers flushed values).
+		// If the storage of such a contract differs, that is something else and gets
+		// its own, unlisted kind.
+		dirty := map[int]bool{}
+		if e.BigS(pr.Value).Sign() > 0 {
+			dirty[pr.FIC] = true
+		}
+		cur := map[[2]uint64]uint64{}
+		slot := func(fic int, key uint64) uint64 {
+			k := [2]uint64{uint64(fic), key}
+			if v, ok := cur[k]; ok {
+				return v
+			}
+			v := w.App().EvmKeeper.GetState(w.Ctx(), ew(w).fics[fic], common.BigToHash(new(big.Int).SetUint64(key))).Big().Uint64()
+			cur[k] = v
+			return v
+		}
+		survivingWrites(pr.Nodes, oa.frames, pr.FIC, dirty, func(fic int, key, val uint64) bool {
+			changed := slot(fic, key) != val
+			cur[[2]uint64{uint64(fic), key}] = val
+			return changed
+		})
+		for _, d := range e.DiffStoreEntries(A.App, B.App, "evm") {
+			if len(d.Key) == 1+20+32 && d.Key[0] == 0x02 {
+				for i, f := range ew(w).fics {
+					if string(f.Bytes()) == string(d.Key[1:21]) && dirty[i] {
+						kind = "failed-frame-contains-precompile-call-but-storage-of-a-contract-with-surviving-changes-differs"
+					}
+				}
+			}
+		}
+	}
 	if len(diff) > 0 {
 		what := "inner-frame"
 		if topFailed {
@@ -537,6 +573,50 @@ func onlyZeroSlotArtefacts(ds []e.KVDiff) bool {
 		}
 	}
 	return len(ds) > 0
+}
+
+// survivingWrites marks the FIC instances that end the transaction dirty:
+// SSTOREs and value transfers executed in frames that succeeded (all ancestors
+// included). nodes/frames: the op list run by `self` in a frame that succeeded.
+func survivingWrites(nodes []*evmprog.Node, frames []*evmprog.Frame, self int, dirty map[int]bool, store func(fic int, key, val uint64) bool) {
+	byNode := map[*evmprog.Node]*evmprog.Frame{}
+	for _, fr := range frames {
+		byNode[fr.Node] = fr
+	}
+	for _, n := range nodes {
+		switch n.Kind {
+		case evmprog.OpSStore:
+			// (an SSTORE of the value the slot already has leaves no journal entry)
+			if self >= 0 && self < nFIC && store(self, n.Key, n.Val) {
+				dirty[self] = true
+			}
+		case evmprog.OpCall, evmprog.OpCallCode, evmprog.OpDelegateCall, evmprog.OpStaticCall:
+			fr := byNode[n]
+			if fr == nil {
+				return // not executed: an earlier uncaught failure ended the frame (cannot happen in a successful frame)
+			}
+			if !fr.Success {
+				continue
+			}
+			callee := -1
+			fmt.Sscanf(n.Target, "fic:%d", &callee)
+			if e.BigS(n.Value).Sign() > 0 && (n.Kind == evmprog.OpCall || n.Kind == evmprog.OpCallCode) {
+				if self >= 0 {
+					dirty[self] = true
+				}
+				if callee >= 0 && n.Kind == evmprog.OpCall {
+					dirty[callee] = true
+				}
+			}
+			if n.Sub != nil {
+				who := callee
+				if n.Kind == evmprog.OpDelegateCall || n.Kind == evmprog.OpCallCode {
+					who = self
+				}
+				survivingWrites(n.Sub, fr.Sub, who, dirty, store)
+			}
+		}
+	}
 }
 
 func dumpFrames(frs []*evmprog.Frame, depth int) {
